@@ -143,8 +143,15 @@ def edits(rng, sd):
         out.append(("wellformed-" + rule, _inject_last(F.render_xml(sd), "  <key name='%s' attribute='wk9'/>\n" % nm)))
     for at, rule in (("1x", "attribute"), ("a-b", "attribute"), ("getSectionFoo", "attribute-reserved"), ("ok9&#10;", "attribute-newline")):
         out.append(("wellformed-" + rule, _inject_last(F.render_xml(sd), "  <key name='wfa9' attribute='%s'/>\n" % at)))
-    for rq in ("maybe", "YES", "1", ""):
+    tn = (sd.types[0].name if sd.types else None)
+    for rq in ("maybe", "YES", "1", "", "true", "no "):
         out.append(("wellformed-required", _inject_last(F.render_xml(sd), "  <key name='wfr9' required='%s'/>\n" % rq)))
+        out.append(("wellformed-required-multikey", _inject_last(F.render_xml(sd), "  <multikey name='wfr9' required='%s'/>\n" % rq)))
+        out.append(("wellformed-required-multikey", _inject_last(F.render_xml(sd), "  <multikey name='+' attribute='wfr9' required='%s'/>\n" % rq)))
+        if tn:
+            out.append(("wellformed-required-section", _inject_last(F.render_xml(sd), "  <section type='%s' name='wfr9' required='%s'/>\n" % (tn, rq))))
+            out.append(("wellformed-required-multisection", _inject_last(
+                F.render_xml(sd), "  <multisection type='%s' name='*' attribute='wfr9' required='%s'/>\n" % (tn, rq))))
     for dt in ("nosuchdatatype", "Integer ", "basic key"):
         out.append(("wellformed-datatype", _inject_last(F.render_xml(sd), "  <key name='wfd9' datatype='%s'/>\n" % dt)))
     out.append(("wellformed-handler-newline", _inject_last(F.render_xml(sd), "  <key name='wfh9' handler='h9&#10;'/>\n")))
